@@ -493,6 +493,25 @@ def specialise(t, cond, _memo=None):
     return r
 
 
+def handler_failures(events, excs=None):
+    """raise / exit events that happen inside the handler of a try (optionally: of the given exception flags only):
+    a handler that is meant to contain a failure and fails itself (or re-raises) contains nothing"""
+    starts = {}
+    for e in events:
+        if e.kind == "handler" and e.data[0] not in starts:
+            starts[e.data[0]] = e
+    out = []
+    for e in events:
+        if e.kind not in ("raise", "exit"):
+            continue
+        cj = set(e.guard.args) if isinstance(e.guard, Op) and e.guard.op == "and" else {e.guard}
+        for exc, h in starts.items():
+            if (excs is None or exc in excs) and exc in cj and e.seq > h.seq and e.func == h.func:
+                out.append((e, exc))
+                break
+    return out
+
+
 class InstanceToken:
     def __init__(self, qual, oid):
         self.qual, self.oid = qual, oid
@@ -510,6 +529,8 @@ def with_heap(I, env):
     def ref_hook(ref, e):
         o = I.heap.get(ref.oid)
         if isinstance(o, ListObj):
+            e = dict(e)
+            e["__progress_oid__"], e["__progress__"] = ref.oid, ()
             vals = eval_items(o.items, e)
             return tuple(vals) if o.typ == "tuple" else vals
         if isinstance(o, DictObj):
@@ -525,6 +546,11 @@ def with_heap(I, env):
         raise CannotEval(repr(ref))
 
     def sym_hook(t, e):
+        if t.kind == "loopvar" and isinstance(t.info, tuple) and len(t.info) == 2 and isinstance(t.info[1], tuple) and t.info[1][:1] == ("len",):
+            # the length, at this point of the run, of the very list whose summary is being executed
+            if e.get("__progress_oid__") == t.info[1][1]:
+                return sum(len(x) for x in e.get("__progress__", ()))
+            raise CannotEval(repr(t))
         if t.kind == "loopout" and t.info and t.info[0] in I.loops:
             L = I.loops[t.info[0]]
             final = run_loop(L, e, [])[1]
@@ -596,6 +622,7 @@ def run_loop(L, env, group, cap=4096, probe=None):
         e2 = dict(env)
         e2[L.idx] = i
         e2["__inloops__"] = env.get("__inloops__", frozenset()) | {L.lid}
+        e2["__progress__"] = env.get("__progress__", ()) + (out,)
         for w, v in state.items():
             if w in lvs:
                 e2[lvs[w]] = v
@@ -611,7 +638,10 @@ def run_loop(L, env, group, cap=4096, probe=None):
             g = group[j]
             if g[1] is L:
                 if bool(evaluate(g[3], e2)):
-                    out.append(evaluate(g[2], e2))
+                    if isinstance(g[2], Op) and g[2].op == "splat":
+                        out.extend(evaluate(g[2].args[0], e2))       # xs.extend(...) inside the loop
+                    else:
+                        out.append(evaluate(g[2], e2))
                 j += 1
                 continue
             # elements added by a loop nested in this one: run it within this iteration
@@ -663,7 +693,9 @@ def eval_items(items, env, cap=4096):
         while k < len(items) and items[k][0] == "rep" and loop_root(items[k][1], env) is L:
             group.append(items[k])
             k += 1
-        out.extend(run_loop(L, env, group, cap)[0])
+        env2 = dict(env)
+        env2["__progress__"] = env.get("__progress__", ()) + (out,)
+        out.extend(run_loop(L, env2, group, cap)[0])
     return out
 
 
